@@ -89,3 +89,13 @@ Lemma f18_witness :
   k18 2 false f18_history = true /\ k19 f18_history = false /\ contract (init 2 false) f18_history = true
   /\ clean_after step 2 f18_history = Some [RPublish (mkPub Q1 1 3 3); RPublish (mkPub Q1 2 2 2)].
 Proof. vm_compute. repeat split. Qed.
+
+Lemma f4_summary :
+  clean_after step_orig 2 f4_history = Some [] /\ option_map inflight (run_orig (init 2 false) f4_history) = Some 0
+  /\ clean_after step 2 f4_history = Some [RPublish (mkPub Q1 1 3 3)].
+Proof. vm_compute. repeat split. Qed.
+
+Lemma f8_summary :
+  clean_after step_orig 1 [pq Q1 1; pq Q1 2] = Some [RPublish (mkPub Q1 1 1 1)]
+  /\ clean_after step 1 [pq Q1 1; pq Q1 2] = Some [RPublish (mkPub Q1 1 1 1); RPublish (mkPub Q1 1 2 2)].
+Proof. vm_compute. repeat split. Qed.
